@@ -13,6 +13,7 @@ V: per curve: (r, s) class products (valid, 0, negative, N, +N, N-1, 1, huge,
    Trace_SigForks requires fork = crypto/ecdsa everywhere, rejection when the
    structure says so, acceptance of valid ones, fail-closed entropy outcomes."""
 import vlib
+from checks import verdicts_common as vc
 from checks import sigforks_common as sc
 
 
@@ -20,6 +21,7 @@ def run(ctx):
     ctx.model_check("Entropy", "MC_Entropy.cfg", workers=2)
     ctx.model_check("MC_DER", ctx.pick("MC_DER.cfg", "MC_DER_thorough.cfg"), workers=8)
     n, cases, kinds = sc.run(ctx, "ecdsa")
+    vn, vcases, vdepth = vc.run(ctx, ['ecdsa'])   # Verdicts.tla: every history of presentations on one long-lived object
     return ctx.finish({
         "traces_validated_against_impl": n,
         "evaluations": len(cases),
@@ -27,6 +29,7 @@ def run(ctx):
         "rule": "a case is one verification of one (r, s) or DER string by both implementations, one cross-signing round, or one "
                 "consumer on one reader script; distinct = distinct inputs",
         "cases_by_kind": kinds,
+        **vc.coverage(vn, vcases, vdepth),
         "samples": [vlib.trim(c, 24) for c in vlib.sample(cases, 4)],
         "exhaustive": False,
         "exhaustive_part": "entropy scripts: every failure position x 3 chunkings x 2 error deliveries for 5 consumers x 4 curves",
@@ -37,4 +40,6 @@ def run(ctx):
 
 
 def replay(ctx, path):
+    if vlib.json.load(open(path)).get("family") == "verdicts":
+        return vc.replay(ctx, path)
     return ctx.replay_case(path, "sigforks", "Trace_SigForks")
